@@ -211,6 +211,73 @@ fn equivalences(rep: &mut Report) {
     }
 }
 
+
+/// One salted / plain expansion for a (salt, key) pair, from the initial state (`pre` = 0), from the state after a prior
+/// plain expansion (1) or after a prior salted expansion (2); state compared with the reference.
+fn sweep_case(salt: &[u8], key: &[u8], pre: u8) -> Result<(), String> {
+    let mut imp = Blowfish::bc_init_state();
+    let mut rf = State::init();
+    let pk = al::distinct_bytes(9, 3);
+    let ps = al::dense(16, 102, 1);
+    match pre {
+        1 => {
+            imp.bc_expand_key(&pk);
+            rf.expand_key(&pk);
+        }
+        2 => {
+            imp.salted_expand_key(&ps, &pk);
+            rf.salted_expand_key(&ps, &pk);
+        }
+        _ => {}
+    }
+    if salt.is_empty() {
+        imp.bc_expand_key(key);
+        rf.expand_key(key);
+    } else {
+        imp.salted_expand_key(salt, key);
+        rf.salted_expand_key(salt, key);
+    }
+    same_state(&imp, &rf)
+}
+
+/// Every salt length 1..=80 and every key length 1..=80 (the word stream wraps at every residue and period: a salt of
+/// 12 bytes has a 3-word period, seed C14r4-1), dense and ramp contents, from initial and non-initial states.
+fn length_sweeps(rep: &mut Report) {
+    let keys = [al::distinct_bytes(1, 1), al::distinct_bytes(8, 2), al::distinct_bytes(17, 3)];
+    let mut cases: Vec<(Vec<u8>, Vec<u8>, u8)> = Vec::new();
+    for l in 1..=80usize {
+        for salt in [al::dense(l, 101, l as u64), al::ramp(l)] {
+            for k in &keys {
+                for pre in 0..3u8 {
+                    cases.push((salt.clone(), k.clone(), pre));
+                }
+            }
+        }
+        for key in [al::dense(l, 103, l as u64), al::ramp(l)] {
+            for pre in 0..3u8 {
+                cases.push((Vec::new(), key.clone(), pre)); // plain expansion
+                cases.push((al::dense(16, 104, 0), key.clone(), pre));
+                cases.push((al::dense(l, 105, l as u64), key.clone(), pre)); // salt and key of the same length
+            }
+        }
+    }
+    for (salt, key, pre) in cases {
+        rep.evaluations += 1;
+        rep.distinct_count += 1;
+        rep.ref_compared += 1;
+        rep.calls += 2;
+        let r = guarded(|| sweep_case(&salt, &key, pre)).unwrap_or_else(|p| Err(format!("panic: {p}")));
+        if let Err(e) = r {
+            rep.violate(viol(
+                json!({"kind":"bc-sweep","salt":hex(&salt),"key":hex(&key),"pre":pre}),
+                format!("reference state after {} with a {}-byte salt and a {}-byte key", if salt.is_empty() { "bc_expand_key" } else { "salted_expand_key" }, salt.len(), key.len()),
+                e,
+            ));
+        }
+    }
+    rep.count("length_sweep_cases", 80 * (2 * 3 * 3 + 2 * 3 * 3));
+}
+
 fn viol(case: Value, expected: String, observed: String) -> Violation {
     Violation { property: "C14".into(), subject: "Blowfish(bcrypt)".into(), what: "eksblowfish".into(), case, expected, observed, note: "eksblowfish primitive differs from the reference".into(), index: 0 }
 }
@@ -249,6 +316,7 @@ pub fn replay(case: &Value) -> Result<(), String> {
             equivalences(&mut r);
             if r.violations.is_empty() { Ok(()) } else { Err(r.violations[0].observed.clone()) }
         }
+        "bc-sweep" => guarded(|| sweep_case(&al::unhex(case["salt"].as_str().unwrap()), &al::unhex(case["key"].as_str().unwrap()), case["pre"].as_u64().unwrap() as u8)).unwrap_or_else(|p| Err(format!("panic: {p}"))),
         k => Err(format!("unknown case kind {k}")),
     }
 }
@@ -291,6 +359,7 @@ pub fn run(ctx: &Ctx, rep: &mut Report) {
         }
     }
     equivalences(rep);
+    length_sweeps(rep);
     // bcrypt cost loops
     let m = menu();
     let max_cost = if ctx.tier == Tier::Quick { 4 } else { 8 };
